@@ -70,6 +70,7 @@ let table : (string * (sexp -> sexp)) list = [
   ("C02", run_C02);
   ("C05", run_C05);
   ("C03", run_C03);
+  ("C04", run_C04);
 ]
 
 let () =
